@@ -55,7 +55,19 @@ def run(sc, ch, trace=None):
             if got is None or w.ended:
                 break
             w.boundary_checks()
+            snap_before = snapshot(w) if (menu[k][0] == "suspend" and w.npools == 1) else None
             res = w.exec_phase(*got)
+            if (w.ended and snap_before is not None and w.exception is not None and w.exception[0] == "exec"
+                    and w.last_reject is not None and w.last_reject.startswith("suspend") and snapshot(w) == snap_before):
+                # a refused suspension request that left no observable trace: a caller may catch the error and go on;
+                # the tick did not happen (the model did not advance either), everything stated must keep holding
+                w.ended = False
+                w.exception = None
+                w.model_dead = False
+                w.stats["resumed_after_refused_suspend"] = w.stats.get("resumed_after_refused_suspend", 0) + 1
+                if trace is not None:
+                    trace[-1]["exception"] = "refused (no observable effect); run continues"
+                continue
             if trace is not None:
                 trace[-1]["results"] = None if res is None else [(r.container_id, r.error) for r in res]
                 trace[-1]["exception"] = None if w.exception is None else f"{type(w.exception[2]).__name__}: {w.exception[2]} @ {w.exception[3]}"
@@ -73,6 +85,15 @@ def run(sc, ch, trace=None):
     finally:
         w.close()
     return w
+
+
+def snapshot(w):
+    """everything observable about executor and pipelines"""
+    ex = w.executor
+    return ([(p.avail_cpu_pool, p.avail_ram_pool, p.get_consumed_ram_gb(), [c.container_id for c in p.active_containers],
+              [c.container_id for c in p.suspending_containers], [c.container_id for c in p.suspended_containers],
+              [c.get_current_memory_usage() for c in p.active_containers]) for p in ex.pools],
+            [[s_.value for s_ in pl.runtime_status().operator_states.values()] for pl in w.pipelines])
 
 
 def dur(k, tps):
